@@ -722,3 +722,411 @@ fn ho_format_extern(ext: Option<Option<&str>>) -> (String, String) {
 fn ho_keywords() -> Vec<(&'static str, &'static str, String)> {
     rustfmt_nightly::verif_hooks::optin::keywords()
 }
+
+// ---------------------------------------------------------------------------------------------------------------
+// §6 attributes
+
+/// (source text, model encoding)
+pub const ATTRS: [(&str, &str); 10] = [
+    ("#[derive(A)]", "d:A"),
+    ("#[derive(B, C)]", "d:B+C"),
+    ("#[derive(a::D, A)]", "d:a::D+A"),
+    ("#[derive()]", "d:"),
+    ("#[derive]", "D"),
+    ("/// d", "c:/// d"),
+    ("#[doc = \" x\"]", "v:0: x"),
+    ("#[inline]", "x:#[inline]"),
+    ("#[cfg_attr(x, derive(E))]", "x:#[cfg_attr(x, derive(E))]"),
+    ("#[doc(hidden)]", "x:#[doc(hidden)]"),
+];
+
+/// what stands between two attributes: (text, line feeds, has a slash)
+pub const GAPS: [(&str, usize, bool); 5] = [("\n", 1, false), ("\n\n", 2, false), ("\n// c\n", 2, true), (" ", 0, false), (" /* c */ ", 0, true)];
+
+pub fn enc_attr(model: &str) -> String {
+    let (tag, rest) = model.split_once(':').unwrap_or((model, ""));
+    match tag {
+        "D" => "D".into(),
+        "d" => format!("d:{}", if rest.is_empty() { "_".to_string() } else { rest.split('+').map(enc_str).collect::<Vec<_>>().join("+") }),
+        "c" => format!("c:{}", enc_str(rest)),
+        "v" => {
+            let (i, v) = rest.split_once(':').unwrap();
+            format!("v:{}:{}", i, enc_str(v))
+        }
+        _ => format!("x:{}", enc_str(rest)),
+    }
+}
+
+/// an attribute list of the hook (`list` of an `attrs` record) in the model's flat encoding
+pub fn flat_of_hook(list: &str) -> Vec<String> {
+    list.split('\x1f')
+        .filter(|s| !s.is_empty())
+        .map(|e| {
+            let (head, rest) = e.split_once(':').unwrap_or((e, ""));
+            let kind = &head[..1];
+            let inner = head.ends_with('i');
+            match kind {
+                "D" => "D".to_string(),
+                "d" => format!("d:{}", if rest.is_empty() { "_".to_string() } else { rest.split(',').map(enc_str).collect::<Vec<_>>().join("+") }),
+                "c" => format!("c:{}", enc_str(rest)),
+                "v" => format!("v:{}:{}", b(inner), enc_str(rest)),
+                _ => format!("x:{}", enc_str(rest)),
+            }
+        })
+        .collect()
+}
+
+pub struct AttrCase {
+    pub src: String,
+    pub model: String,
+}
+
+pub fn attr_lists(rng: &mut Rng, thorough: bool) -> Vec<AttrCase> {
+    let mut lists: Vec<Vec<(usize, usize)>> = vec![];
+    for a in 0..ATTRS.len() {
+        lists.push(vec![(a, 0)]);
+        for g in 0..GAPS.len() {
+            for c in 0..ATTRS.len() {
+                lists.push(vec![(a, g), (c, 0)]);
+            }
+        }
+    }
+    // three and four long: a seeded sample (all of length three in thorough)
+    let n3 = if thorough { 0 } else { 1500 };
+    if thorough {
+        for a in 0..ATTRS.len() {
+            for g in 0..GAPS.len() {
+                for c in 0..ATTRS.len() {
+                    for h in 0..GAPS.len() {
+                        for d in 0..ATTRS.len() {
+                            lists.push(vec![(a, g), (c, h), (d, 0)]);
+                        }
+                    }
+                }
+            }
+        }
+    }
+    for _ in 0..n3 {
+        lists.push(vec![(rng.below(ATTRS.len()), rng.below(GAPS.len())), (rng.below(ATTRS.len()), rng.below(GAPS.len())), (rng.below(ATTRS.len()), 0)]);
+    }
+    for _ in 0..(if thorough { 6000 } else { 1000 }) {
+        // derive-heavy lists of four
+        let pick = |rng: &mut Rng| if rng.chance(2, 3) { rng.below(5) } else { rng.below(ATTRS.len()) };
+        lists.push(vec![(pick(rng), rng.below(GAPS.len())), (pick(rng), rng.below(GAPS.len())), (pick(rng), rng.below(GAPS.len())), (pick(rng), 0)]);
+    }
+    lists
+        .into_iter()
+        .map(|l| {
+            let mut src = String::new();
+            let mut model = vec![];
+            for (i, (a, g)) in l.iter().enumerate() {
+                src.push_str(ATTRS[*a].0);
+                let last = i + 1 == l.len();
+                // a line comment or a doc comment must end its line
+                let g = if !last && (ATTRS[*a].0.starts_with("///")) && GAPS[*g].1 == 0 { 0 } else { *g };
+                if !last {
+                    src.push_str(GAPS[g].0);
+                }
+                let line_comment = !last && (GAPS[g].0 == " /* c */ " || (GAPS[g].0 == " " && ATTRS[l[i + 1].0].0.starts_with("///")));
+                model.push(format!("{}/{}/{}/{}", enc_attr(ATTRS[*a].1), if last { 0 } else { GAPS[g].1 }, b(!last && GAPS[g].2), b(line_comment)));
+            }
+            src.push_str("\nstruct S;\n");
+            AttrCase { src, model: model.join(",") }
+        })
+        .collect()
+}
+
+pub fn attr_cases(o: &mut Outcome, rng: &mut Rng, thorough: bool) {
+    let cfgs: Vec<(bool, bool, rustfmt_nightly::Config)> = [(true, false), (false, false), (true, true), (false, true)]
+        .iter()
+        .map(|(m, n)| (*m, *n, mk_cfg(&[("merge_derives", if *m { "true" } else { "false" }), ("normalize_doc_attributes", if *n { "true" } else { "false" })])))
+        .collect();
+    for (ci, c) in attr_lists(rng, thorough).iter().enumerate() {
+        for (k, (merge, norm, config)) in cfgs.iter().enumerate() {
+            if k > 0 && (ci + k) % 3 != 0 {
+                continue;
+            }
+            o.count("attrs:inputs");
+            let Some(recs) = analyze(&c.src, config) else {
+                o.count("attrs:does-not-parse");
+                continue;
+            };
+            let Some(r) = first(&recs, "attrs") else { continue };
+            // the gaps and the kinds as the code sees them are the ones the generator meant
+            let seen: Vec<String> = flat_of_hook(r.get("list").unwrap_or(""));
+            let meant: Vec<String> = c.model.split(',').map(|x| x.split('/').next().unwrap_or("").to_string()).collect();
+            let gaps_seen = r.get("gaps").unwrap_or("").to_string();
+            let gaps_meant = c.model.split(',').map(|x| { let p: Vec<&str> = x.split('/').collect(); format!("{},{}", p[1], p[2]) }).collect::<Vec<_>>();
+            let gaps_meant = gaps_meant[..gaps_meant.len() - 1].join(";");
+            if seen != meant || gaps_seen != gaps_meant {
+                o.direct_failures.push(serde_json::json!({"sig": "attrs-generator", "src": c.src, "seen": seen, "meant": meant, "gaps_seen": gaps_seen, "gaps_meant": gaps_meant}));
+                continue;
+            }
+            // take_while_with_pred at every position
+            if k == 0 {
+                let items: Vec<&str> = c.model.split(',').collect();
+                for (i, run) in r.get("runs").unwrap_or("").split(',').enumerate() {
+                    o.push("corr", "opt.attrs.run", format!("opt.attrs.run d {}", items[i..].join(",")), run.to_string(), format!("{:?} at {}", c.src, i), run != "0");
+                }
+            }
+            // the rewritten list, read back by the parser
+            let out = r.get("out").unwrap_or("");
+            let expect = if out == "!err" {
+                "fail".to_string()
+            } else {
+                match analyze(&format!("{}\nstruct S;\n", out), config).as_deref().and_then(|rs| first(rs, "attrs").map(|x| flat_of_hook(x.get("list").unwrap_or("")))) {
+                    Some(units) => units.join(","),
+                    None => {
+                        o.direct_failures.push(serde_json::json!({"sig": "attrs-output-does-not-parse", "src": c.src, "out": out}));
+                        continue;
+                    }
+                }
+            };
+            let changed = squeeze(out) != squeeze(c.src.trim_end().trim_end_matches("struct S;"));
+            o.push("corr", "opt.attrs.flat", format!("opt.attrs.flat {} 0 {} {}", b(*merge), b(*norm), c.model), expect, format!("{:?} merge={} norm={}", c.src, merge, norm), changed);
+        }
+    }
+    // DocCommentFormatter on literal values
+    let mut values: Vec<String> = vec!["".into(), " x".into(), "x".into(), "a\nb".into(), "a\n".into(), "\n".into(), "\n\n".into(), "a\r\nb".into(), "a\rb".into(), "a\n\nb".into(), " a\n b\n".into(), "a\r".into(), "\r\n".into(), "a\\nb".into(), "a\"b".into(), "*/".into()];
+    let alpha = ['a', ' ', '\n', '\r', '/'];
+    for _ in 0..(if thorough { 3000 } else { 300 }) {
+        let n = rng.range(0, 6);
+        values.push((0..n).map(|_| *rng.pick(&alpha)).collect());
+    }
+    for v in &values {
+        for inner in [false, true] {
+            let Some(real) = guard(|| rustfmt_nightly::verif_hooks::optin::doc_comment_text(v, inner)) else { continue };
+            o.push("corr", "opt.doctext", format!("opt.doctext {} {}", b(inner), enc_str(v)), enc_str(&real), format!("{:?} inner={}", v, inner), v.contains('\n'));
+            // the comment stands for the same documentation string, when the value has no CR and no last line feed
+            if !v.contains('\r') && !v.ends_with('\n') {
+                o.push("oracle", "opt.docvalue", format!("opt.docvalue {} {}", enc_str(v), enc_str(&real)), "ok".into(), format!("{:?} inner={}", v, inner), v.contains('\n'));
+            }
+        }
+    }
+}
+
+// ---------------------------------------------------------------------------------------------------------------
+// §7 leading pipes, arm commas, semicolons
+
+pub const ARM_BODIES: [(&str, &str); 4] = [("1", "e"), ("{ g(); 2 }", "b"), ("unsafe { 3 }", "u"), ("{}", "b")];
+
+pub fn match_cases(o: &mut Outcome) {
+    for pipes in ["Never", "Always", "Preserve"] {
+        for mbtc in [false, true] {
+            for tc in ["Vertical", "Never", "Always"] {
+                let config = mk_cfg(&[("match_arm_leading_pipes", pipes), ("match_block_trailing_comma", if mbtc { "true" } else { "false" }), ("trailing_comma", tc)]);
+                for (b1, _) in ARM_BODIES {
+                    for (b2, _) in ARM_BODIES {
+                        for p1 in [false, true] {
+                            for p2 in [false, true] {
+                                let src = format!(
+                                    "fn f() {{ match x {{ {}A | B if g => {}, {}C => {}{} }} }}\n",
+                                    if p1 { "| " } else { "" },
+                                    b1,
+                                    if p2 { "|" } else { "" },
+                                    b2,
+                                    if p2 { "," } else { "" }
+                                );
+                                o.count("match:inputs");
+                                let Some(recs) = analyze(&src, &config) else {
+                                    o.count("match:does-not-parse");
+                                    continue;
+                                };
+                                let Some(r) = first(&recs, "match") else { continue };
+                                let arms: Vec<Vec<&str>> = r.get("arms").unwrap_or("").split(';').map(|a| a.split(',').collect()).collect();
+                                for (i, a) in arms.iter().enumerate() {
+                                    if a.len() != 4 {
+                                        continue;
+                                    }
+                                    // the code's reading of the arm is the generator's
+                                    let meant_pipe = if i == 0 { p1 } else { p2 };
+                                    if a[0] != b(meant_pipe) {
+                                        o.direct_failures.push(serde_json::json!({"sig": "match-generator", "src": src, "arm": i}));
+                                    }
+                                    o.push("corr", "opt.armcomma", format!("opt.armcomma {} {} {} {}", b(tc == "Never"), b(mbtc), a[1], a[2]), a[3].to_string(), format!("{:?} arm {} pipes={} mbtc={} tc={}", src, i, pipes, mbtc, tc), true);
+                                }
+                                // the leading pipe of each printed arm
+                                let out = r.get("out").unwrap_or("");
+                                if out == "!err" {
+                                    o.count("match:rewrite-failed");
+                                    continue;
+                                }
+                                let heads: Vec<&str> = out.lines().map(|l| l.trim_start()).filter(|l| l.contains("=>")).collect();
+                                if heads.len() != 2 {
+                                    o.count("match:arms-not-on-one-line-each");
+                                    continue;
+                                }
+                                for (i, h) in heads.iter().enumerate() {
+                                    let meant_pipe = if i == 0 { p1 } else { p2 };
+                                    let real = if h.starts_with("| ") { "| " } else if h.starts_with('|') { "|" } else { "" };
+                                    o.push("corr", "opt.pipe", format!("opt.pipe {} {}", &pipes[..1], b(meant_pipe)), enc_str(real), format!("{:?} arm {} pipes={}", src, i, pipes), true);
+                                }
+                            }
+                        }
+                    }
+                }
+            }
+        }
+    }
+}
+
+/// (source text of the statement, model kind, may only stand last)
+pub const STMTS: [(&str, &str, bool); 19] = [
+    ("let a = 1;", "l", false),
+    ("f();", "so", false),
+    ("f()", "eo", true),
+    ("return 1;", "sj", false),
+    ("return 1", "ej", true),
+    ("break;", "sj", false),
+    ("break", "ej", true),
+    ("continue;", "sj", false),
+    ("continue", "ej", true),
+    ("while x {}", "ew", false),
+    ("while x {};", "sw", false),
+    ("loop {};", "sw", false),
+    ("for i in x {};", "sw", false),
+    ("for i in x {}", "ew", false),
+    ("struct S;", "i", false),
+    ("m!();", "m", false),
+    ("if x {}", "eo", false),
+    ("if x {};", "so", false),
+    ("{ g() };", "so", false),
+];
+
+pub fn block_lists() -> Vec<Vec<usize>> {
+    let n = STMTS.len();
+    let mut v = vec![];
+    for a in 0..n {
+        v.push(vec![a]);
+        for c in 0..n {
+            if !STMTS[a].2 {
+                v.push(vec![a, c]);
+            }
+        }
+    }
+    for a in 0..n {
+        for c in 0..n {
+            for d in 0..n {
+                if !STMTS[a].2 && !STMTS[c].2 && (a + 2 * c + 3 * d) % 5 == 0 {
+                    v.push(vec![a, c, d]);
+                }
+            }
+        }
+    }
+    v
+}
+
+pub fn block_cases(o: &mut Outcome) {
+    for ts in [true, false] {
+        let config = mk_cfg(&[("trailing_semicolon", if ts { "true" } else { "false" })]);
+        for list in block_lists() {
+            let src = format!("fn f() {{ {} }}\n", list.iter().map(|s| STMTS[*s].0).collect::<Vec<_>>().join(" "));
+            o.count("block:inputs");
+            let Some(recs) = analyze(&src, &config) else {
+                o.count("block:does-not-parse");
+                continue;
+            };
+            let Some(r) = first(&recs, "block") else { continue };
+            let infos: Vec<Vec<&str>> = r.get("stmts").unwrap_or("").split(';').map(|a| a.split(',').collect()).collect();
+            if infos.len() != list.len() {
+                o.direct_failures.push(serde_json::json!({"sig": "block-generator", "src": src, "stmts": r.get("stmts")}));
+                continue;
+            }
+            let outs: Vec<&str> = r.get("outs").unwrap_or("").split('\x1f').collect();
+            for (i, info) in infos.iter().enumerate() {
+                let kind = STMTS[list[i]].1;
+                let is_last = i + 1 == list.len();
+                if info.len() != 4 || info[0] != kind {
+                    o.direct_failures.push(serde_json::json!({"sig": "block-generator", "src": src, "stmt": i, "seen": info, "meant": kind}));
+                    continue;
+                }
+                let desc = format!("{:?} stmt {} trailing_semicolon={}", src, i, ts);
+                o.push("corr", "opt.lastexpr", format!("opt.lastexpr {} {}", b(is_last), kind), info[1].to_string(), desc.clone(), is_last);
+                o.push("corr", "opt.semi.stmt", format!("opt.semi.stmt {} {} {}", b(ts), kind, info[1]), info[2].to_string(), desc.clone(), true);
+                if info[3] != "-" {
+                    o.push("corr", "opt.semi.expr", format!("opt.semi.expr {} 0 {}", b(ts), &kind[1..]), info[3].to_string(), desc.clone(), true);
+                }
+                // `Stmt::rewrite` of an expression statement ends in `;` exactly when semicolon_for_stmt says so
+                if kind.starts_with('s') || kind.starts_with('e') {
+                    if let Some(t) = outs.get(i) {
+                        if *t != "!err" && (t.ends_with(';') != (info[2] == "1")) {
+                            o.direct_failures.push(serde_json::json!({"sig": "stmt-suffix", "src": src, "stmt": i, "out": t}));
+                        }
+                    }
+                }
+            }
+        }
+    }
+}
+
+// ---------------------------------------------------------------------------------------------------------------
+// §8 a float literal and what follows it
+
+/// (symbol, suffix) of the float grid
+pub fn float_grid() -> Vec<(String, String)> {
+    let mut v = vec![];
+    for ip in ["0", "1", "12", "1_0", "007"] {
+        for fr in ["", ".", ".0", ".00", ".5", ".50", ".0_0", ".05"] {
+            for ex in ["", "e5", "E-3", "e+1_0"] {
+                for suf in ["", "f32", "f64"] {
+                    // an integer without point, exponent or float suffix is not a float literal
+                    if fr.is_empty() && ex.is_empty() && suf.is_empty() {
+                        continue;
+                    }
+                    // `1.f32` is a field access, `1.e5` likewise
+                    if fr == "." && (!ex.is_empty() || !suf.is_empty()) {
+                        continue;
+                    }
+                    v.push((format!("{}{}{}", ip, fr, ex), suf.to_string()));
+                }
+            }
+        }
+    }
+    v
+}
+
+fn rustc_number_rest(s: &str) -> Option<String> {
+    let t = rustc_lexer::tokenize(s).next()?;
+    if !matches!(t.kind, rustc_lexer::TokenKind::Literal { kind: rustc_lexer::LiteralKind::Int { .. } | rustc_lexer::LiteralKind::Float { .. }, .. }) {
+        return None;
+    }
+    Some(s[t.len as usize..].to_string())
+}
+
+pub fn lex_cases(o: &mut Outcome, rng: &mut Rng, thorough: bool) {
+    // the model of rustc_lexer's `number` against rustc_lexer: every text of length <= 5 (6) over the alphabet that
+    // starts with a digit, and the printed literals of the grid followed by what a rewriter may put behind them
+    let alpha = ['0', '1', '_', '.', 'e', 'E', '+', '-', 'x', 'b', 'o', 'f', ' ', 'a', '3'];
+    let max = if thorough { 6 } else { 5 };
+    let mut layer: Vec<String> = vec!["0".into(), "1".into()];
+    let mut all: Vec<String> = layer.clone();
+    for len in 2..=max {
+        let mut next = vec![];
+        for s in &layer {
+            for c in alpha {
+                // the full product up to length 4, a seeded third above
+                if len > 4 && !rng.chance(1, 3) {
+                    continue;
+                }
+                next.push(format!("{}{}", s, c));
+            }
+        }
+        all.extend(next.iter().cloned());
+        layer = next;
+    }
+    for (sym, suf) in float_grid() {
+        for follow in ["..", "..=2.", " ..", ".min(1)", ".0", ".await", " ", ")", ",", ";", "..2.0", "...", "e", "_", "f32"] {
+            all.push(format!("{}{}{}", sym, suf, follow));
+            if let Some(p) = sym.strip_suffix(".0") {
+                all.push(format!("{}.{}", p, follow));
+            }
+        }
+    }
+    for s in all {
+        let Some(rest) = rustc_number_rest(&s) else {
+            o.count("lex:not-a-number-token");
+            continue;
+        };
+        o.push("corr", "lit.lexrest", format!("lit.lexrest {}", enc_str(&s)), enc_str(&rest), format!("{:?}", s), !rest.is_empty());
+    }
+}
